@@ -554,7 +554,8 @@ class PkgConfigModule(NewExtensionModule):
                 pure_path_class = PurePosixPath
 
         fname = os.path.join(outdir, pcfile)
-        with open(fname, 'w', encoding='utf-8') as ofile:
+        fname_tmp = fname + '~'
+        with open(fname_tmp, 'w', encoding='utf-8') as ofile:
             for optname in optnames:
                 if optname in referenced_vars - varnames:
                     if optname == 'prefix':
@@ -656,6 +657,8 @@ class PkgConfigModule(NewExtensionModule):
             cflags_private: T.List[str] = [self._escape(f) for f in deps.cflags_private]
             if cflags_private and not dataonly:
                 ofile.write('Cflags.private: {}\n'.format(' '.join(cflags_private)))
+        # Do not touch an unchanged .pc file
+        mesonlib.replace_if_different(fname, fname_tmp)
 
     @typed_pos_args('pkgconfig.generate', optargs=[(build.SharedLibrary, build.StaticLibrary)])
     @typed_kwargs(
